@@ -71,3 +71,11 @@ Proof. induction l as [|h t IH]; simpl.
   - rewrite andb_true_iff, negb_true_iff, memb_false, IH. split.
     + intros [H1 H2]; constructor; auto.
     + intros H; inversion H; auto. Qed.
+
+Lemma NoDup_snoc {A} (l : list A) x : NoDup l -> ~ In x l -> NoDup (l ++ [x]).
+Proof.
+  intros Hl Hx. induction Hl as [|a l Ha Hl IH]; simpl; [constructor; [intros []|constructor]|].
+  constructor.
+  - intros H. apply in_app_or in H. destruct H as [H|[H|[]]]; [contradiction|]. apply Hx. left; auto.
+  - apply IH. intros H. apply Hx. right; auto.
+Qed.
